@@ -96,6 +96,23 @@ Proof.
 Qed.
 Print Assumptions C02_methods_agree_up_to_sign.
 
+(* the three dispatchers called WITHOUT a method argument are, as regenerated from the source, the very same function of
+   the nine matrix entries as with method='shepperd' (so the default is the method proved to invert everywhere, on all
+   three routes alike); a mixed-case method name is the lower-case method *)
+Theorem C02_default_is_shepperd : forall r00 r01 r02 r10 r11 r12 r20 r21 r22,
+  C02_DCM_default_m_R r00 r01 r02 r10 r11 r12 r20 r21 r22 = C02_DCM_shepperd_m_R r00 r01 r02 r10 r11 r12 r20 r21 r22 /\
+  C02_Q_default_m_R r00 r01 r02 r10 r11 r12 r20 r21 r22 = C02_Q_shepperd_m_R r00 r01 r02 r10 r11 r12 r20 r21 r22 /\
+  C02_QA_default_m_R r00 r01 r02 r10 r11 r12 r20 r21 r22 = C02_QA_shepperd_m_R r00 r01 r02 r10 r11 r12 r20 r21 r22.
+Proof. intros. split; [reflexivity|]. split; reflexivity. Qed.
+Print Assumptions C02_default_is_shepperd.
+
+Theorem C02_method_name_case_insensitive : forall r00 r01 r02 r10 r11 r12 r20 r21 r22,
+  C02_DCM_HUGHES_m_R r00 r01 r02 r10 r11 r12 r20 r21 r22 = C02_DCM_hughes_m_R r00 r01 r02 r10 r11 r12 r20 r21 r22 /\
+  C02_Q_HUGHES_m_R r00 r01 r02 r10 r11 r12 r20 r21 r22 = C02_Q_hughes_m_R r00 r01 r02 r10 r11 r12 r20 r21 r22 /\
+  C02_QA_HUGHES_m_R r00 r01 r02 r10 r11 r12 r20 r21 r22 = C02_QA_hughes_m_R r00 r01 r02 r10 r11 r12 r20 r21 r22.
+Proof. intros. split; [reflexivity|]. split; reflexivity. Qed.
+Print Assumptions C02_method_name_case_insensitive.
+
 (* Bar-Itzhack, the matrices handed to LAPACK (hand model, tied to the code by capturing the argument of eig/eigh):
    symmetric for EVERY input matrix; for R = Rspec q: q~ = (x,y,z,-w) is an eigenvector for the eigenvalue 1 of K2 and
    K3; any unit eigenvector of K3 for an eigenvalue above -1/3, and of K2 for a positive eigenvalue, is +-q~ and its
